@@ -123,7 +123,9 @@ def verify_function(ctx, key, c=None, only_case=None):
               fr.entry_state = entry
               ctx.entries[lab] = (dict(env), entry, case)
               if is_gen:
-                  st.ghost["out"] = (0, lambda k: (_ for _ in ()).throw(Unsupported("read of empty generator output")))
+                  # nothing yielded yet: reads are always guarded by `k < len(out_)`, the placeholder is arbitrary
+                  st.ghost["out"] = (0, ex.fresh_elems(c.yields, "out0", st) if c.yields is not None else
+                                     (lambda k: (_ for _ in ()).throw(Unsupported("read of empty generator output"))))
                   for vname, mk in c.ghost.items():
                       if callable(mk):
                           st.ghost["view_" + vname] = mk(ex, st, init=True)
